@@ -130,8 +130,8 @@ func Harness_C05_batched_archive_is_wellformed() {
 				}
 				return &c01Src{data: data}, nil
 			},
-			Info:    c01Info{name: n, size: int64(len(data)), mode: 0o640},
-			Path:    n,
+			Info: c01Info{name: n, size: int64(len(data)), mode: 0o640},
+			Path: n,
 		})
 	}
 	i := 0
